@@ -220,6 +220,23 @@ pub fn vp_chunks_exact_map<'a, R, F: Fn(&'a [u8]) -> R + 'a>(s: &'a [u8], n: usi
     s.chunks_exact(n).map(f)
 }
 
+// ---- A-bitops: the non-short-circuit operators on bool (Verus rejects `&` / `|` on bool); bodies are the operators ----
+#[verifier::external_body]
+pub fn vp_bool_and(a: bool, b: bool) -> (r: bool)
+    ensures
+        r == (a && b),
+{
+    a & b
+}
+
+#[verifier::external_body]
+pub fn vp_bool_or(a: bool, b: bool) -> (r: bool)
+    ensures
+        r == (a || b),
+{
+    a | b
+}
+
 // ---- A-box: `Borrow<T> for Box<T>` returns the boxed value (std fact; used by FciBuilderWrapper::{deref, as_ref}) ----
 pub assume_specification<T: ?Sized, A: core::alloc::Allocator>[ <Box<T, A> as std::borrow::Borrow<T>>::borrow ](b: &Box<T, A>) -> (r: &T)
     ensures
